@@ -327,12 +327,13 @@ func EdgeDominates(e Edge, blk *ssa.BasicBlock) bool {
 	return !reached
 }
 
-// Reach explores fn's CFG from `from` (nil = function entry, otherwise the
-// instruction AFTER which exploration starts) and reports whether an
+// reachLocal explores fn's own CFG from `from` (nil = function entry, otherwise
+// the instruction AFTER which exploration starts) and reports whether an
 // instruction satisfying target is reachable without crossing a blocked edge
 // and without executing a barrier instruction. The witness is the list of
-// blocks of one such path.
-func Reach(fn *ssa.Function, from ssa.Instruction, target func(ssa.Instruction) bool, blocked map[Edge]bool, barrier func(ssa.Instruction) bool) ([]*ssa.BasicBlock, bool) {
+// blocks of one such path. Calls are opaque steps; see Reach in region.go for
+// the variant every rule uses, which expands same-package helpers.
+func reachLocal(fn *ssa.Function, from ssa.Instruction, target func(ssa.Instruction) bool, blocked map[Edge]bool, barrier func(ssa.Instruction) bool) ([]*ssa.BasicBlock, bool) {
 	if len(fn.Blocks) == 0 {
 		return nil, false
 	}
@@ -406,6 +407,9 @@ func (p *Program) Witness(path []*ssa.BasicBlock) []string {
 	var out []string
 	for _, b := range path {
 		desc := fmt.Sprintf("b%d", b.Index)
+		if len(path) > 0 && b.Parent() != path[0].Parent() && b.Parent() != nil {
+			desc = b.Parent().Name() + ":" + desc
+		}
 		if b.Comment != "" {
 			desc += " (" + b.Comment + ")"
 		}
@@ -669,12 +673,47 @@ type SliceOpts struct {
 	Stop           func(v ssa.Value) bool // do not expand this value (it is still included)
 	Stores         bool                   // follow loads from local Allocs / fields of local Allocs to the stored values
 	Indices        bool                   // also follow the index operand of IndexAddr / Index / Lookup (which element was selected)
+	Region         *Region                // expand helpers of this region (default: the region of the function v belongs to)
+	Local          bool                   // do not expand helpers at all
 }
 
 // BackSlice returns the set of values v may derive from (including v).
 func BackSlice(v ssa.Value, o SliceOpts) map[ssa.Value]bool {
 	seen := map[ssa.Value]bool{}
+	rg := o.Region
+	if rg == nil && !o.Local {
+		if in, ok := v.(ssa.Instruction); ok && in.Parent() != nil {
+			rg = RegionOf(in.Parent())
+		} else if pa, ok := v.(*ssa.Parameter); ok && pa.Parent() != nil {
+			rg = RegionOf(pa.Parent())
+		}
+	}
+	// helperOf: the region helper a call value runs, if any
+	helperOf := func(c *ssa.Call) *ssa.Function {
+		if rg == nil || o.Local || c.Parent() == nil {
+			return nil
+		}
+		g := HelperCallee(c.Parent(), c)
+		if g == nil || g == rg.Root || !rg.in[g] {
+			return nil
+		}
+		return g
+	}
 	var visit func(v ssa.Value)
+	visitResults := func(g *ssa.Function, idx int) {
+		for _, ret := range Returns(g) {
+			for i := range ret.Results {
+				if idx >= 0 && i != idx {
+					continue
+				}
+				for _, rv := range ResultValues(ret, i) {
+					if !IsZeroMarker(rv) {
+						visit(rv)
+					}
+				}
+			}
+		}
+	}
 	visit = func(v ssa.Value) {
 		if v == nil || seen[v] {
 			return
@@ -688,7 +727,30 @@ func BackSlice(v ssa.Value, o SliceOpts) map[ssa.Value]bool {
 			for _, e := range x.Edges {
 				visit(e)
 			}
+		case *ssa.Parameter:
+			// a parameter of an expanded helper stands for the arguments at its call sites in the region
+			if rg != nil && !o.Local {
+				if g := x.Parent(); g != nil && g != rg.Root && rg.in[g] {
+					for j, pp := range g.Params {
+						if pp != x {
+							continue
+						}
+						for _, cs := range rg.sites[g] {
+							if args := cs.Common().Args; !cs.Common().IsInvoke() && j < len(args) {
+								visit(args[j])
+							}
+						}
+					}
+				}
+			}
 		case *ssa.Extract:
+			if c, ok := x.Tuple.(*ssa.Call); ok {
+				if g := helperOf(c); g != nil {
+					seen[x.Tuple] = true
+					visitResults(g, x.Index)
+					return
+				}
+			}
 			visit(x.Tuple)
 		case *ssa.ChangeType:
 			visit(x.X)
@@ -754,6 +816,10 @@ func BackSlice(v ssa.Value, o SliceOpts) map[ssa.Value]bool {
 				})
 			}
 		case *ssa.Call:
+			if g := helperOf(x); g != nil {
+				visitResults(g, -1)
+				return
+			}
 			follow := o.ThroughCalls
 			if o.ThroughCallsIf != nil {
 				follow = o.ThroughCallsIf(x)
